@@ -54,6 +54,8 @@ class VLoop(asyncio.SelectorEventLoop):
         self._selector.select = vselect  # type: ignore[method-assign]
         self._clock_resolution = 1e-9
         self.exceptions: list[Any] = []
+        self.crashes: list[Any] = []
+        self.on_crash: Any = None
         self.set_exception_handler(self._on_exc)
 
     def _on_exc(self, loop: Any, ctx: Any) -> None:
@@ -92,7 +94,13 @@ class VLoop(asyncio.SelectorEventLoop):
         try:
             self._allow_advance = False
             while n < k and self.has_ready():
-                self._run_once()
+                try:
+                    self._run_once()
+                except (SystemExit, KeyboardInterrupt) as exc:
+                    # asyncio re-raises these out of the loop: in a real worker the process dies here
+                    self.crashes.append(exc)
+                    if self.on_crash is not None:
+                        self.on_crash(exc)
                 n += 1
         finally:
             self._leave()
